@@ -1144,6 +1144,21 @@ CASES = [
  dict(name="c08-single-drop-not-reported", ids=["C08"], rule="C08.R4f", subs=[(BW, "        if (QUILL_UNLIKELY(failed_messages_cnt > 0))", "        if (QUILL_UNLIKELY(failed_messages_cnt > 1))")]),
  dict(name="c20-unbounded-dtor-frees-nothing", ids=["C20"], rule="C20.R7a", subs=[(U, "    while (current_node != nullptr)\n    {\n      auto const to_delete = current_node;", "    while (current_node == nullptr)\n    {\n      auto const to_delete = current_node;")]),
  dict(name="c20-unbounded-dtor-reads-next-of-deleted-node", ids=["C20"], rule="C20.R7a", subs=[(U, "      current_node = current_node->next;\n      delete to_delete;", "      delete to_delete;\n      current_node = current_node->next;")]),
+ dict(name="c17-get_valid_logger-returns-invalid-ones", ids=["C17", "C07"], rule="R", subs=[(LM, "      if (elem->is_valid_logger())\n      {\n        // Return the logger only if", "      if (!elem->is_valid_logger())\n      {\n        // Return the logger only if")]),
+ dict(name="c14-ctor-size-read-only-for-null-sink", ids=["C14"], rule="C14.R5d", subs=[(RSH, "    if (!this->is_null())\n    {\n      _file_size = _get_file_size(this->_filename);", "    if (this->is_null())\n    {\n      _file_size = _get_file_size(this->_filename);")]),
+ dict(name="c03-console-sink-drops-uncoloured-statements", ids=["C03"], rule="C03.R11", subs=[("sinks/ConsoleSink.h", """    else
+    {
+      // Write record to file
+      StreamSink::write_log(log_metadata, log_timestamp, thread_id, thread_name, process_id,
+                            logger_name, log_level, log_level_description, log_level_short_code,
+                            named_args, log_message, log_statement);
+    }""", """    else if (log_level != LogLevel::Backtrace)
+    {
+      // Write record to file
+      StreamSink::write_log(log_metadata, log_timestamp, thread_id, thread_name, process_id,
+                            logger_name, log_level, log_level_description, log_level_short_code,
+                            named_args, log_message, log_statement);
+    }""")]),
  dict(name="c13-localtime_rs-calls-gmtime_r", ids=["C13"], rule="C13.R7a", subs=[("core/TimeUtilities.h", "  tm* res = localtime_r(timer, buf);", "  tm* res = gmtime_r(timer, buf);")]),
  dict(name="c13-timegm-via-mktime", ids=["C13"], rule="C13.R7a", subs=[("core/TimeUtilities.h", "  time_t const ret_val = ::timegm(tm);", "  time_t const ret_val = ::mktime(tm);")]),
  dict(name="c13-timegm-failure-returned", ids=["C13"], rule="C13.R7c", subs=[("core/TimeUtilities.h", """  if (QUILL_UNLIKELY(ret_val == (time_t)-1))
